@@ -23,7 +23,7 @@ theorem writes_only_under_dest_v1 (H1 : Bytes → Bytes) (ds : Nat) (fs : FS) (f
   exact frame_of_trace dest _ fs (trace_below dest _ fs hr hb).1 q hq
 
 /-- in the example world a v1 rebuild of the single file `n/f` leaves `/s/f` and `/d` as they were -/
-example : let ops := (matchV1 id 4096 Ex.fs Ex.fmap [[100]] 4 [[1,2,3]] [⟨[110,47,102], [102], 3, none⟩]).1
+example : let ops := (matchV1 id 4096 Ex.fs Ex.fmap [[100]] 4 [[1,2,3]] [⟨[110,47,102], [102], 3, none, false⟩]).1
     ops = [Op.mkdir [[100],[110]], Op.copy [[115],[102]] [[100],[110],[102]]] ∧
     applyOps Ex.fs ops [[115],[102]] = some (.file [1,2,3]) ∧ applyOps Ex.fs ops [[100]] = some .dir := by
   decide
@@ -40,7 +40,7 @@ theorem writes_only_under_dest_v2 (rootOf : Bytes → Bytes) (ds : Nat) (fs : FS
   exact frame_of_trace dest _ fs (trace_below dest _ fs hr hb).1 q hq
 
 /-- in the example world a v2 rebuild of `n/f` leaves `/s/f` and `/d` as they were -/
-example : let ops := (matchV2 id 4096 Ex.fmap [[100]] Ex.fs [⟨[110,47,102], [102], 3, some [1,2,3]⟩]).1
+example : let ops := (matchV2 id 4096 Ex.fmap [[100]] Ex.fs [⟨[110,47,102], [102], 3, some [1,2,3], false⟩]).1
     ops = [Op.mkdir [[100],[110]], Op.copy [[115],[102]] [[100],[110],[102]]] ∧
     applyOps Ex.fs ops [[115],[102]] = some (.file [1,2,3]) ∧ applyOps Ex.fs ops [[100]] = some .dir ∧
     applyOps Ex.fs ops [[100],[110],[102]] = some (.file [1,2,3]) := by decide
@@ -58,7 +58,7 @@ theorem written_is_candidate_copy_v1 (H1 : Bytes → Bytes) (ds : Nat) (fs : FS)
 
 /-- the one copy of the v1 example takes the candidate `("/s/f", 3)` of the record `n/f` (length 3)
     to `safe_join("/d", "n/f")` -/
-example : (matchV1 id 4096 Ex.fs Ex.fmap [[100]] 4 [[1,2,3]] [⟨[110,47,102], [102], 3, none⟩]).1.filter (fun op => match op with | .copy _ _ => true | _ => false)
+example : (matchV1 id 4096 Ex.fs Ex.fmap [[100]] 4 [[1,2,3]] [⟨[110,47,102], [102], 3, none, false⟩]).1.filter (fun op => match op with | .copy _ _ => true | _ => false)
       = [Op.copy [[115],[102]] [[100],[110],[102]]] ∧
     Ex.fmap.lookup [102] = some [([[115],[102]], 3)] ∧
     safeJoin [[100]] [110,47,102] = some [[100],[110],[102]] := by decide
@@ -74,14 +74,16 @@ theorem written_is_candidate_copy_v2 (rootOf : Bytes → Bytes) (ds : Nat) (fs :
 
 /-- `v1` `full` is `os.path.join(name, *path)`: for name `T` and path `["a","f"]` the copy target is
     `dest/T/a/f` -/
-example : (extractV1Multi [84] [([[97],[102]], 3)]).map (·.map (·.full)) = some [[84,47,97,47,102]] ∧
+example : (extractV1Multi [84] [([[97],[102]], 3, false)]).map (·.map (·.full)) = some [[84,47,97,47,102]] ∧
     safeJoin [[100]] [84,47,97,47,102] = some [[100],[84],[97],[102]] := by decide
 
 /-- v1: a file is only copied after a piece verified.  For every copy there is a point of the
     trace (`pre`) and a piece of the metafile such that, in the state at that point, one readable
     same-name same-size candidate per path node of the piece had been assembled (`Combo`), the
     SHA-1 (`H1`) of the assembled bytes equals the recorded digest of the piece, and the copied
-    source is the candidate used for one of the nodes, copied to that node's assigned path.
+    source is the candidate used for one of the nodes – not a padding node; a padding node
+    (`attr = "p"`) contributes `stop - start` zero bytes to the assembled piece and has a
+    placeholder instead of a candidate – copied to that node's assigned path.
     (Only that one piece is verified – see `C13.v1_decoy_witness`.) -/
 theorem verified_before_copy_v1 (H1 : Bytes → Bytes) (ds : Nat) (fs : FS) (filemap : FileMap)
     (dest : Path) (pl : Nat) (pieces : List Bytes) (files : List FileRec) (src dst : Path)
@@ -89,12 +91,13 @@ theorem verified_before_copy_v1 (H1 : Bytes → Bytes) (ds : Nat) (fs : FS) (fil
     ∃ pre, pre <+: (matchV1 H1 ds fs filemap dest pl pieces files).1 ∧
       ∃ pp ∈ v1PieceNodes pl pieces files, ∃ choice,
         Combo (applyOps fs pre) filemap pp.2 choice ∧ H1 (comboData pp.2 choice) = pp.1 ∧
-        ∃ pc ∈ List.zip pp.2 choice, pc.2.1 = src ∧ safeJoin dest pc.1.file.full = some dst :=
+        ∃ pc ∈ List.zip pp.2 choice, pc.2.1 = src ∧ safeJoin dest pc.1.file.full = some dst ∧
+          pc.1.file.pad = false :=
   (matchV1_run H1 ds fs filemap dest pl pieces files).copy_mem h
 
 /-- a same-named same-sized file none of whose pieces verifies is not placed (v1): with the
     recorded piece 9 9 9 and the candidate `/s/f` = 1 2 3 nothing is copied or counted -/
-example : matchV1 id 4096 Ex.fs Ex.fmap [[100]] 4 [[9,9,9]] [⟨[110,47,102], [102], 3, none⟩] = ([], []) := by
+example : matchV1 id 4096 Ex.fs Ex.fmap [[100]] 4 [[9,9,9]] [⟨[110,47,102], [102], 3, none, false⟩] = ([], []) := by
   decide
 
 /-- v2 / hybrid: a file is only copied after its merkle root verified.  For every copy there is a
@@ -113,7 +116,7 @@ theorem verified_before_copy_v2 (rootOf : Bytes → Bytes) (ds : Nat) (fs : FS) 
 
 /-- a same-named same-sized file whose root differs is not placed: with the decoy `/s/f` = 1 2 3
     and recorded root 9 9 9 nothing is copied -/
-example : matchV2 id 4096 Ex.fmap [[100]] Ex.fs [⟨[110,47,102], [102], 3, some [9,9,9]⟩] = ([], []) := by
+example : matchV2 id 4096 Ex.fmap [[100]] Ex.fs [⟨[110,47,102], [102], 3, some [9,9,9], false⟩] = ([], []) := by
   decide
 
 /-- v1: `shutil.copy(src, dst)` is executed only in a state in which the source exists and the
@@ -130,7 +133,7 @@ theorem full_length_dest_untouched_v1 (H1 : Bytes → Bytes) (ds : Nat) (fs : FS
 example : matchV1 id 4096
       (FS.ofList [([], .dir), ([[100]], .dir), ([[100],[110]], .dir), ([[100],[110],[102]], .file [7,7,7]),
         ([[115]], .dir), ([[115],[102]], .file [1,2,3])])
-      Ex.fmap [[100]] 4 [[1,2,3]] [⟨[110,47,102], [102], 3, none⟩] = ([], [[110,47,102]]) := by decide
+      Ex.fmap [[100]] 4 [[1,2,3]] [⟨[110,47,102], [102], 3, none, false⟩] = ([], [[110,47,102]]) := by decide
 
 /-- … v2 / hybrid likewise. -/
 theorem full_length_dest_untouched_v2 (rootOf : Bytes → Bytes) (ds : Nat) (fs : FS) (filemap : FileMap)
@@ -144,7 +147,7 @@ theorem full_length_dest_untouched_v2 (rootOf : Bytes → Bytes) (ds : Nat) (fs 
 example : matchV2 id 4096 Ex.fmap [[100]]
       (FS.ofList [([], .dir), ([[100]], .dir), ([[100],[110]], .dir), ([[100],[110],[102]], .file [1,2]),
         ([[115]], .dir), ([[115],[102]], .file [1,2,3])])
-      [⟨[110,47,102], [102], 3, some [1,2,3]⟩]
+      [⟨[110,47,102], [102], 3, some [1,2,3], false⟩]
     = ([Op.copy [[115],[102]] [[100],[110],[102]]], [[110,47,102]]) := by decide
 
 /-- Consequence for destination files that already have their full recorded length: when the
@@ -229,7 +232,7 @@ example : FilemapOK Ex.fs [[100]] Ex.fmap ∧
     matchV2 id 4096 Ex.fmap [[100]]
       (FS.ofList [([], .dir), ([[100]], .dir), ([[100],[110]], .dir), ([[100],[110],[102]], .file [7,7,7]),
         ([[115]], .dir), ([[115],[102]], .file [1,2,3])])
-      [⟨[110,47,102], [102], 3, some [1,2,3]⟩] = ([], [[110,47,102]]) :=
+      [⟨[110,47,102], [102], 3, some [1,2,3], false⟩] = ([], [[110,47,102]]) :=
   ⟨Ex.filemapOK, by decide⟩
 
 /-- v1: nothing outside the destination is ever written – at every point of the rebuild and at
@@ -253,7 +256,7 @@ theorem sources_untouched_v1 (H1 : Bytes → Bytes) (ds : Nat) (fs : FS) (filema
 
 /-- `/s/f` is not inside `/d`; after the v1 example it still holds 1 2 3 -/
 example : ¬ ([[100]] : Path) <+: [[115],[102]] ∧
-    applyOps Ex.fs (matchV1 id 4096 Ex.fs Ex.fmap [[100]] 4 [[1,2,3]] [⟨[110,47,102], [102], 3, none⟩]).1 [[115],[102]] = some (.file [1,2,3]) := by decide
+    applyOps Ex.fs (matchV1 id 4096 Ex.fs Ex.fmap [[100]] 4 [[1,2,3]] [⟨[110,47,102], [102], 3, none, false⟩]).1 [[115],[102]] = some (.file [1,2,3]) := by decide
 
 /-- v2 / hybrid: same statement as `sources_untouched_v1`. -/
 theorem sources_untouched_v2 (rootOf : Bytes → Bytes) (ds : Nat) (fs : FS) (filemap : FileMap)
